@@ -156,9 +156,21 @@ class Endpoint:
             if r[0] == kind and (kind == 4 or r[1] == i):
                 self.reactions.remove(r)
                 try:
-                    ch.send(r[2])
-                    self.reacted.append((i, r[2]))
-                    self.events.append(("rsend", i, r[2]))      # for the oracles only (not an output of the transport)
+                    act = r[2]
+                    if isinstance(act, tuple) and act and act[0] == "close":
+                        # the handler closes a channel (not modelled by the automaton: oracle-only runs)
+                        j = act[1] % len(self.channels)
+                        self.channels[j].close()
+                        self.events.append(("rclose", i, j))
+                    elif isinstance(act, tuple) and act and act[0] == "create":
+                        # the handler creates a channel (not modelled by the automaton: oracle-only runs)
+                        chn = self.m.RTCDataChannel(self.t, self.m.RTCDataChannelParameters(**act[1]))
+                        self._watch(chn)
+                        self.events.append(("rcreate", i, self.channels.index(chn)))
+                    else:
+                        ch.send(act)
+                        self.reacted.append((i, act))
+                        self.events.append(("rsend", i, act))      # for the oracles only (not an output of the transport)
                 except Exception as exc:  # noqa: BLE001 - stays inside the application's handler
                     ev = ("rexc", i, type(exc).__name__)
                     self.events.append(ev)
